@@ -4,6 +4,7 @@ import WD.Proofs.Pipeline.BurstGrow
 import WD.Proofs.Pipeline.BurstFiles
 import WD.Proofs.Pipeline.BurstMkRename
 import WD.Proofs.Pipeline.BurstMoveIn
+import WD.Proofs.Pipeline.BurstChain
 import WD.Proofs.Pipeline.ReplayRun
 set_option linter.unusedSimpArgs false
 namespace WD.Pipe
@@ -40,7 +41,10 @@ def okBurst (s : Sys) (b : List Op) : Prop :=
     s.fs.isDir (parentOf q) = true ∧ watchedDir s.fs true (parentOf p) = true ∧ watchedDir s.fs true (parentOf q) = true) ∨
   (∃ o q1 q2 e, b = [.rename o q1, .rename q1 q2] ∧ RenameOK s.fs o q1 e ∧ RenameOK s.fs o q2 e ∧ e.isDir = true ∧
     s.fs.find? q1 = none ∧ s.fs.find? q2 = none ∧ q1 ≠ q2 ∧ isUnder q1 q2 = false ∧
-    watchedDir s.fs true (parentOf o) = false ∧ watchedDir s.fs true (parentOf q1) = true ∧ watchedDir s.fs true (parentOf q2) = true)
+    watchedDir s.fs true (parentOf o) = false ∧ watchedDir s.fs true (parentOf q1) = true ∧ watchedDir s.fs true (parentOf q2) = true) ∨
+  (∃ a b1 c e, b = [.rename a b1, .rename b1 c] ∧ RenameOK s.fs a b1 e ∧ RenameOK s.fs a c e ∧ e.isDir = true ∧
+    s.fs.find? b1 = none ∧ s.fs.find? c = none ∧ b1 ≠ c ∧ isUnder b1 c = false ∧
+    watchedDir s.fs true (parentOf a) = true ∧ watchedDir s.fs true (parentOf b1) = true ∧ watchedDir s.fs true (parentOf c) = true)
 
 def pacedOK (s : Sys) : List (List Op) → Prop
   | [] => True
@@ -66,7 +70,7 @@ theorem paced_step (s : Sys) (b : List Op) (inv : InvRec s.fs s.k s.lib) (hs : s
     rw [r1, run_fs]
     exact replay_run inv.wf s.full b (by rw [← allValid_eq_fsValid]; exact hv) hroot
   rcases hok with h | h | ⟨op, rfl, hv, hne⟩ | ⟨p, q, rfl, h1, h2, h3, h4, h5, h6, h7⟩ |
-    ⟨o, q1, q2, e, rfl, k1, k2, k3, k4, k5, k6, k7, k8, k9, k10⟩
+    ⟨o, q1, q2, e, rfl, k1, k2, k3, k4, k5, k6, k7, k8, k9, k10⟩ | ⟨a, b1, c, e, rfl, m1, m2, m3, m4, m5, m6, m7, m8, m9, m10⟩
   · exact drained (burst_files s b inv hs hc h) (allValid_of_allFile b s h) (allFile_no_root b s h)
   · obtain ⟨h1, h2, h3, h4, h5, _⟩ := burst_grow s b inv hs hc h
     exact ⟨h4, h2, h3, by rw [h1]; exact h5⟩
@@ -77,6 +81,10 @@ theorem paced_step (s : Sys) (b : List Op) (inv : InvRec s.fs s.k s.lib) (hs : s
     refine ⟨a5, a3, a4, ?_⟩
     rw [a1, a2]
     exact burst_movein_rename_replay s o q1 q2 e inv.wf k1 k2 k3 k4 k5 k6 k7 k8 k10 s.full
+  · obtain ⟨a1, a2, a3, a4, a5⟩ := burst_rename_chain_state s a b1 c e inv hs hc m1 m2 m3 m4 m5 m6 m7 m8 m9 m10
+    refine ⟨a5, a3, a4, ?_⟩
+    rw [a1, a2]
+    exact burst_rename_chain_replay s.fs a b1 c e inv.wf m1 m2 m3 m4 m5 m6 m7 m10
 
 /-- **paced histories**: any sequence of bursts - single (drained) operations of every kind, bursts of file operations,
     nested creation bursts - each read as one batch: the reader never crashes, the emitter keeps running, the invariant
@@ -117,7 +125,7 @@ theorem allFile_of_check (s : Sys) (ops : List Op) (h : allFileB s ops = true) :
 
 theorem okBurst_of_check (s : Sys) (b : List Op) (h : okBurstB s b = true) : okBurst s b := by
   simp only [okBurstB, Bool.or_eq_true] at h
-  rcases h with (((h | h) | h) | h) | h
+  rcases h with ((((h | h) | h) | h) | h) | h
   · exact Or.inl (allFile_of_check s b h)
   · exact Or.inr (Or.inl (allGrow_of_check s b h))
   · unfold mkRenameB at h
@@ -143,7 +151,25 @@ theorem okBurst_of_check (s : Sys) (b : List Op) (h : okBurstB s b = true) : okB
         | some x => simp [FS.exists, hh] at b6
       have ok1 : RenameOK s.fs o q1 e := ⟨b2, b3, he, b7, b9, b11, fun old ho => by rw [f1] at ho; cases ho⟩
       have ok2 : RenameOK s.fs o q2 e := ⟨b2, b4, he, b8, b10, b12, fun old ho => by rw [f2] at ho; cases ho⟩
-      exact Or.inr (Or.inr (Or.inr (Or.inr ⟨o, q1, q2, e, rfl, ok1, ok2, hed, f1, f2, b13, b14, b15, b16, b17⟩)))
+      exact Or.inr (Or.inr (Or.inr (Or.inr (Or.inl ⟨o, q1, q2, e, rfl, ok1, ok2, hed, f1, f2, b13, b14, b15, b16, b17⟩))))
+    · cases h
+  · unfold renameChainB at h
+    split at h
+    · next a b1 b1' c =>
+      simp only [Bool.and_eq_true, beq_iff_eq, decide_eq_true_eq, Bool.not_eq_true', bne_iff_ne, ne_eq] at h
+      obtain ⟨⟨⟨⟨⟨⟨⟨⟨⟨⟨⟨⟨⟨⟨⟨⟨⟨rfl, b1'⟩, b2⟩, b3⟩, b4⟩, b5⟩, b6⟩, b7⟩, b8⟩, b9⟩, b10⟩, b11⟩, b12⟩, b13⟩, b14⟩, b15⟩, b16⟩, b17⟩ := h
+      obtain ⟨e, he, hed⟩ := FS.isDir_iff.mp b1'
+      have f1 : s.fs.find? b1 = none := by
+        cases hh : s.fs.find? b1 with
+        | none => rfl
+        | some x => simp [FS.exists, hh] at b5
+      have f2 : s.fs.find? c = none := by
+        cases hh : s.fs.find? c with
+        | none => rfl
+        | some x => simp [FS.exists, hh] at b6
+      have ok1 : RenameOK s.fs a b1 e := ⟨b2, b3, he, b7, b9, b11, fun old ho => by rw [f1] at ho; cases ho⟩
+      have ok2 : RenameOK s.fs a c e := ⟨b2, b4, he, b8, b10, b12, fun old ho => by rw [f2] at ho; cases ho⟩
+      exact Or.inr (Or.inr (Or.inr (Or.inr (Or.inr ⟨a, b1, c, e, rfl, ok1, ok2, hed, f1, f2, b13, b14, b15, b16, b17⟩))))
     · cases h
   · match b, h with
     | [op], h =>
